@@ -325,11 +325,74 @@ func sentinelsOf(c *Ctx, fn *Fn, depth int, seen map[*Fn]bool, out map[string]bo
 			if o := g.Callee(x); o != nil {
 				if h := c.FnOfObj(o); h != nil {
 					sentinelsOf(c, h, depth+1, seen, out)
+					// a sentinel handed to a helper that returns that parameter
+					for i, a := range x.Args {
+						if pv := g.Prov(a); strings.HasPrefix(pv, "global:spec/chord.Err") && errParamReturned(h, i) {
+							out[strings.TrimPrefix(pv, "global:spec/chord.")] = true
+						}
+					}
 				}
 			}
 		}
 		return true
 	})
+}
+
+// errParamReturned: function h returns its i-th parameter (an error) on some path.
+func errParamReturned(h *Fn, i int) bool {
+	want := fmt.Sprintf("param#%d", i)
+	for _, r := range h.Returns() {
+		for _, res := range r.Results {
+			for _, alt := range strings.Split(h.Prov(res), "|") {
+				if alt == want {
+					return true
+				}
+			}
+		}
+	}
+	return false
+}
+
+// rowsAffectedHelper recognises a helper h(res sql.Result, ..., errNone error) error that
+// answers errNone exactly when RowsAffected() is zero: it returns the index of errNone.
+func rowsAffectedHelper(h *Fn) (int, bool) {
+	if h == nil {
+		return 0, false
+	}
+	isZero := func(g *Fn, e ast.Expr, truth bool) (zero, ok bool) {
+		be, isBin := ast.Unparen(e).(*ast.BinaryExpr)
+		if !isBin || (be.Op != token.EQL && be.Op != token.NEQ) {
+			return false, false
+		}
+		v, _ := g.ConstVal(be.Y)
+		if v != "0" || !strings.HasSuffix(g.Prov(be.X), ".RowsAffected()#0") {
+			return false, false
+		}
+		return (be.Op == token.EQL) == truth, true
+	}
+	idx, found := 0, false
+	for _, r := range h.Returns() {
+		if len(r.Results) != 1 {
+			return 0, false
+		}
+		fs := h.FactsAt(r)
+		pv := h.Prov(r.Results[0])
+		switch {
+		case strings.HasPrefix(pv, "param#") && !strings.Contains(pv, "|") && !strings.Contains(pv, "."):
+			// errNone: only under rows == 0
+			if !fs.Cmp(func(e, tag ast.Expr, truth bool, fa *Fact) bool { z, ok := isZero(h, e, truth); return ok && tag == nil && z }) {
+				return 0, false
+			}
+			fmt.Sscanf(pv, "param#%d", &idx)
+			found = true
+		case isNilIdent(h.Info, r.Results[0]):
+			// success: only under rows != 0
+			if !fs.Cmp(func(e, tag ast.Expr, truth bool, fa *Fact) bool { z, ok := isZero(h, e, truth); return ok && tag == nil && !z }) {
+				return 0, false
+			}
+		}
+	}
+	return idx, found
 }
 
 func setStr(m map[string]bool) string {
